@@ -53,6 +53,12 @@ def nontrivial(c, o):  # noqa: F811
     return any(k < c["n"] for k in o["counts"]) or len(o["drawn"]) < c["iters"]
 
 
+# functions of the implementation this property is anchored in: their line coverage under the correspondence cases is
+# measured on the staged copy and reported in the evidence (implementation_line_coverage)
+ANCHORS = [
+    "datascope/importance/shapley.py:ShapleyImportance._shapley_montecarlo",
+]
+
 MANIFEST = {
     "text": "Proof: C16_timeout_average (whatever the clock does, once an iteration has run the result is defined and is "
             "the average of exactly the first k >= 1 completed permutations), C16_first_iteration_timeout, "
